@@ -31,8 +31,20 @@ def check_trace(rep, case, events, outcomes, opinfo, etimes=None):
                     rep.fail("oracle", "data-before-handshake", case_dict(case), {"event": e, "events": events}); return
                 if e[3] != key[cid]:
                     rep.fail("oracle", "data-under-stale-key", case_dict(case), {"event": e, "latest": key[cid], "events": events}); return
-    # expiry / missing authentication at the start of an exchange
+    # every handshake carries the CONFIGURED token: the one given to this call, else the one of the last successful authentication
     ops = case[3]
+    configured = None
+    for i, (op, info) in enumerate(zip(ops, opinfo)):
+        end = opinfo[i + 1]["nevents"] if i + 1 < len(opinfo) else len(events)
+        hs = [e for e in events[info["nevents"]:end] if e[0] == 2]
+        explicit = op[0] in (2, 4) and op[1] in (1, 2)
+        want = (op[1] == 1) if explicit else configured
+        if want is not None and any(bool(e[3]) != want for e in hs):
+            rep.fail("oracle", "handshake-carries-unconfigured-token", case_dict(case),
+                     {"op_index": i, "op": op, "configured_good": want, "handshakes": hs}); return
+        if explicit and outcomes[i][0] in (0, -1):
+            configured = (op[1] == 1)
+    # expiry / missing authentication at the start of an exchange
     for i, (op, info) in enumerate(zip(ops, opinfo)):
         if op[0] not in (1, 3) or not info["v3"]:
             continue
